@@ -250,7 +250,16 @@ var adapters = map[string]adapter{
 	"Scalar_IsOverHalfOrder": scalarRecv(func(r *secp.ModNScalar, o [][]uint64, s []uint64) (uint64, bool) {
 		return b2u(r.IsOverHalfOrder()), true
 	}),
+	// a plain function returning its result by value: the words go to resultWords ("r:<i>" outputs)
+	"Scalar_mul512Rsh320Round": func(o [][]uint64, s []uint64) (uint64, bool) {
+		r := secp.VerifMul512Rsh320Round(sv(o[0]), sv(o[1]))
+		resultWords = make([]uint64, 8)
+		svOut(&r, resultWords)
+		return 0, false
+	},
 }
+
+var resultWords []uint64
 
 func kindLen(kind string) int {
 	switch kind {
@@ -298,6 +307,10 @@ func runKernel(name string, in []uint64) string {
 	for _, ref := range sig.Out {
 		if ref == "ret" {
 			out = append(out, strconv.FormatUint(ret, 10))
+		} else if ref[0] == 'r' {
+			var ri int
+			fmt.Sscanf(ref, "r:%d", &ri)
+			out = append(out, strconv.FormatUint(resultWords[ri], 10))
 		} else {
 			var oi, si int
 			fmt.Sscanf(ref, "o%d:%d", &oi, &si)
@@ -431,6 +444,74 @@ func (h *H) fieldNormalised() []uint64 {
 		o[i] = uint64(n[i])
 	}
 	return o
+}
+
+// chainWalk: a 256-bit value built relative to the constant m in base 2^w (n digits): digits above a random
+// position equal m's, that digit is m's -1 / +0 / +1 / random, lower digits are each 0, max, m's digit, m's
+// digit +-1 or random.  Exercises every arm of a most-significant-first compare chain against m.
+func (h *H) chainWalk(m *big.Int, w uint, n int) *big.Int {
+	mask := new(big.Int).Sub(new(big.Int).Lsh(big.NewInt(1), w), big.NewInt(1))
+	dig := make([]*big.Int, n)
+	for i := range dig {
+		dig[i] = new(big.Int).And(new(big.Int).Rsh(m, uint(i)*w), mask)
+	}
+	top := new(big.Int).Rsh(m, uint(n-1)*w) // the top digit may be narrower than w
+	pos := h.rng.Intn(n)
+	out := make([]*big.Int, n)
+	pick := func(d *big.Int, lim *big.Int) *big.Int {
+		var v *big.Int
+		switch h.rng.Intn(6) {
+		case 0:
+			v = big.NewInt(0)
+		case 1:
+			v = new(big.Int).Set(lim)
+		case 2:
+			v = new(big.Int).Set(d)
+		case 3:
+			v = new(big.Int).Add(d, big.NewInt(1))
+		case 4:
+			v = new(big.Int).Sub(d, big.NewInt(1))
+		default:
+			v = new(big.Int).Rand(h.rng, new(big.Int).Add(lim, big.NewInt(1)))
+		}
+		if v.Sign() < 0 {
+			v.SetInt64(0)
+		}
+		if v.Cmp(lim) > 0 {
+			v.Set(lim)
+		}
+		return v
+	}
+	for i := n - 1; i >= 0; i-- {
+		lim := mask
+		if i == n-1 {
+			lim = new(big.Int).Sub(new(big.Int).Lsh(big.NewInt(1), 256-uint(n-1)*w), big.NewInt(1))
+			dig[i] = top
+		}
+		switch {
+		case i > pos:
+			out[i] = new(big.Int).Set(dig[i])
+		case i == pos:
+			out[i] = pick(dig[i], lim)
+			if h.rng.Intn(2) == 0 { // most often just around the constant's digit
+				out[i] = new(big.Int).Add(dig[i], big.NewInt(int64(h.rng.Intn(3)-1)))
+				if out[i].Sign() < 0 {
+					out[i].SetInt64(0)
+				}
+				if out[i].Cmp(lim) > 0 {
+					out[i].Set(lim)
+				}
+			}
+		default:
+			out[i] = pick(dig[i], lim)
+		}
+	}
+	v := new(big.Int)
+	for i := n - 1; i >= 0; i-- {
+		v.Lsh(v, w)
+		v.Or(v, out[i])
+	}
+	return v
 }
 
 func (h *H) scalarWords(canonical bool) []uint64 {
@@ -645,6 +726,15 @@ func genKernels(h *H, prefixes ...string) {
 					v := h.randScalarInt()
 					if v.BitLen() > 256 {
 						v.Rsh(v, 8)
+					}
+					if h.rng.Intn(3) == 0 {
+						// walk the word-by-word comparison with the modulus: equal above one word, that word just
+						// below / equal / just above, every lower word independently small, large or equal
+						if strings.HasPrefix(name, "Field_") {
+							v = h.chainWalk(curveP, 26, 10)
+						} else {
+							v = h.chainWalk(curveN, 32, 8)
+						}
 					}
 					if h.rng.Intn(3) == 0 {
 						d := int64(h.rng.Intn(5) - 2)
